@@ -1,5 +1,6 @@
 import SigModel.Model.Conc
 import Oracle.Util
+import Oracle.C11Create
 /- suite "conc":  c11 <S> <label> …   label ::= f<i> | r<i> | q<j>r | q<j>s     (see harness/cmd/corr/c11_conc.go)
    → steps=<i>:<step>,… | q<j>:<kind> U=[segs] R=[segs] res=[blocks] (or cnt=<n>) | … | unrot=[seg:n,…] rot=[…] | final=[blocks] cnt=<n>
    The schedule is run on the interleaving machine with the orders extracted from the source (Cfg.real); then
@@ -132,5 +133,6 @@ def handle (cmd : String) (args : List String) : Option String :=
   | "c11" => some (conc args)
   | "c11w" => some (window args)
   | "c11stress" => some (stress args)
+  | "c11c" => C11Create.handle cmd args   -- get-or-create of the segstore table (Oracle/C11Create.lean)
   | _ => none
 end Oracle.C11
